@@ -158,6 +158,38 @@ fn stream_exact(rep: &mut Report, orc: &mut Oracle, rng: &mut Rng, m: &Moc, n_mu
   }
   ok
 }
+/// JSON: writer vs Model/JsonCodec.v to_json, character by character
+fn json_exact(rep: &mut Report, orc: &mut Oracle, m: &Moc) -> bool {
+  let mut ok = true;
+  for fold in [None, Some(0usize), Some(10), Some(60)] {
+    rep.evaluations += 1;
+    rep.count("json-writer-exact");
+    let r = dispatch!(m.q, m.w, |T, QQ| {
+      let mm: RangeMOC<T, QQ> = to_range_moc(m);
+      match catch(move || {
+        let mut buf: Vec<u8> = Vec::new();
+        to_json_aladin((&mm).into_range_moc_iter().cells(), &fold, "", &mut buf).map_err(|e| format!("write error {:?}", e))?;
+        String::from_utf8(buf).map_err(|e| format!("utf8 {:?}", e))
+      }) { Ok(x) => x, Err(p) => Err(p) }
+    });
+    let req = format!("JSONW {} {} {} {} {}", m.q.c(), m.w, m.d, fold.map(|x| x.to_string()).unwrap_or("-".to_string()), ranges_str(&m.r));
+    let model = orc.ask(&req);
+    let model_hex = model.split_whitespace().nth(1).unwrap_or("").to_string();
+    match r {
+      Err(e) => {
+        ok = false;
+        rep.violation("JSON writer fails", &format!("{} # SER {}", req, m.line()), &e, &model, "C07_text_roundtrip");
+      }
+      Ok(s) => {
+        if !model.starts_with("OK") || asciix::hex(s.as_bytes()) != model_hex {
+          ok = false;
+          rep.corr_break("to_json_aladin writes other characters than the character-level model", &format!("{} # SER {}", req, m.line()), &format!("{:?}", s), &format!("{:?}", String::from_utf8_lossy(&unhex(&model_hex))), "src/deser/json.rs to_json_aladin == Model/JsonCodec.v to_json");
+        }
+      }
+    }
+  }
+  ok
+}
 fn unhex(h: &str) -> Vec<u8> {
   if h == "-" { return vec![]; }
   (0..h.len() / 2).filter_map(|i| u8::from_str_radix(&h[2 * i..2 * i + 2], 16).ok()).collect()
@@ -468,6 +500,7 @@ pub fn run(ctx: &Ctx) -> Report {
           if i % 3 == 0 {
             ascii_exact(&mut rep, &mut orc, &mut rng, &m, 1);
             stream_exact(&mut rep, &mut orc, &mut rng, &m, 1);
+            json_exact(&mut rep, &mut orc, &m);
           }
         }
       }
@@ -476,6 +509,7 @@ pub fn run(ctx: &Ctx) -> Report {
           check_moc(&mut rep, &mut orc, &mm);
           ascii_exact(&mut rep, &mut orc, &mut rng, &mm, 2);
           stream_exact(&mut rep, &mut orc, &mut rng, &mm, 2);
+          json_exact(&mut rep, &mut orc, &mm);
         }
       }
       // hand-written documents around every branch of the reader
@@ -506,6 +540,7 @@ pub fn run(ctx: &Ctx) -> Report {
     check_moc(&mut rep, &mut orc, &m);
     ascii_exact(&mut rep, &mut orc, &mut rng, &m, 4);
     stream_exact(&mut rep, &mut orc, &mut rng, &m, 4);
+    json_exact(&mut rep, &mut orc, &m);
     rep.count(&format!("random:{}{}", q.c(), w));
   }
   rep.notes.push(format!("oracle calls: {}", orc.calls));
